@@ -4,6 +4,7 @@ use std::io::{BufRead, Write};
 
 mod ops_blake;
 mod ops_chacha;
+mod ops_conc;
 mod ops_groestl;
 mod ops_jh;
 mod ops_simd;
@@ -74,12 +75,17 @@ fn step(ctx: &mut Ctx, toks: &[&str]) -> String {
         ["null", ..] => ops_null::step(toks),
         ["tf", ..] | ["tfl", ..] => ops_threefish::step(toks),
         ["skein", ..] => ops_skein::step(&mut ctx.skein, toks),
+        ["conc", ..] => ops_conc::step(toks),
         _ => "bad-op".into(),
     }
 }
 
 fn main() {
     std::panic::set_hook(Box::new(|_| {}));
+    let args: Vec<String> = std::env::args().collect();
+    if args.len() >= 2 && args[1] == "--conc-child" {
+        std::process::exit(ops_conc::child_main(&args[2..]));
+    }
     let stdin = std::io::stdin();
     let stdout = std::io::stdout();
     let mut out = std::io::BufWriter::new(stdout.lock());
